@@ -37,10 +37,15 @@ RULE = (
     "`ignore` object whose walk() yields every directory exactly once in a generated order (top-down with permuted "
     "siblings, bottom-up, arbitrary permutation of the triples, names inside dirs/files permuted), after "
     "touch and chmod +x of drawn files, for a drawn sub-directory (direct build vs get_obj), with two "
-    ">1 MiB files in one directory (public parallel path) and through _get_hashes(large_file_threshold=small, "
+    ">1 MiB files in one directory (public parallel path; also 1-3 MiB CRLF texts hashed as md5-dos2unix with a "
+    "CR LF across k*2^20 or a NUL block at a 2^20 offset, i.e. files whose per-read legacy digest would change "
+    "with the read size) and through _get_hashes(state=None) once with every file sequential and once pooled, "
+    "and _get_hashes(large_file_threshold=small or huge, "
     "jobs, drawn per-file delays so the unordered pool really completes out of order). Oracle: every oid == "
     "ref_tree_oid(hashlib manifest), staged listing bytes == reference bytes, _get_hashes maps each path to "
-    "its own hashlib digest. Non-trivial: pure = >=3 entries, >=1 nested key, permutation != identity; "
+    "its own hashlib digest; metamorphic: every whole-tree build of a case gives ONE id and every file ONE "
+    "digest on all routings (where the legacy digest of a >1 MiB file is not pinned down, only this is asked). "
+    "Non-trivial: pure = >=3 entries, >=1 nested key, permutation != identity; "
     "hist = nested keys and a read, then an overwrite of an existing key with another hash, then a prefix-based read; "
     "fs = >=2 files and (>=2 files hashed on pool threads in one phase, or a warm build served entirely from "
     "the state, or a State pre-warmed under another algorithm, or a walk that reaches a root holding files after a "
@@ -173,9 +178,42 @@ PREWARM = [None, "build", "build", "get_hashes", "get_hashes", "sha256", "legacy
 
 
 @st.composite
+def legacy_big(draw):
+    """Segments (gen.content_bytes strings) of a 1-3 MiB CRLF text whose chunk-wise legacy digest depends on the
+    read size: a CR LF pair across k*2^20, or a NUL block starting at a 2^20 offset."""
+    block = draw(st.sampled_from([b"line of text\r\n", b"ab\r\n", b"0123456789abcde\n", b"q"]))
+    total = draw(st.sampled_from([MIB + 70000, MIB + 2**19, 2 * MIB + 5, 3 * MIB - 7]))
+    shape = draw(st.sampled_from(["straddle", "straddle", "bin-at-MiB", "plain"]))
+    k = draw(st.integers(1, max(1, (total - 2) // MIB)))
+
+    def filler(n):
+        q, r = divmod(n, len(block))
+        return ([f"r:{q}:{block.hex()}"] if q else []) + (["h:" + (b"q" * r).hex()] if r else [])
+
+    if shape == "plain":
+        return filler(total)
+    if shape == "straddle":
+        return [*filler(k * MIB - 1), "h:0d0a", *filler(total - k * MIB - 1)]
+    return [*filler(k * MIB), "r:600:00", "h:0d0a", *filler(total - k * MIB - 602)]
+
+
+LEGACY_BIG = legacy_big()
+
+
+@st.composite
 def fs_cases(draw, thorough=False):
     tree = draw(gen.trees(max_files=16 if thorough else 8, max_depth=3, min_files=1, content=FS_CONTENT))
     big = draw(st.integers(0, 3 if thorough else 11)) == 0
+    algo = draw(st.sampled_from(["md5", "md5", "md5", "md5", "md5-dos2unix", "sha256"]))
+    extra = None
+    if big and draw(st.booleans()):
+        # legacy shapes: 1-3 MiB text files whose per-read CRLF handling depends on the read size (CR LF across
+        # k*2^20, a binary-looking block at a 2^20 offset); mostly hashed as md5-dos2unix, >= 2 in one directory
+        big = False
+        if draw(st.integers(0, 3)) > 0:
+            algo = "md5-dos2unix"
+        extra = {"dir": draw(st.integers(0, 5)),
+                 "files": {nm: draw(LEGACY_BIG) for nm in ("legacy1", "Legacy2", "legacy3")[:draw(st.integers(2, 3))]}}
     if big:
         # two > 1 MiB files in one directory: the public route into the unordered pool
         tgt = tree
@@ -191,13 +229,13 @@ def fs_cases(draw, thorough=False):
             tree[draw(st.sampled_from(["sub", "a", "zzz", "-"]))] = {"x": draw(FS_CONTENT), "deep": {"d": draw(FS_CONTENT)}}
         if all(isinstance(v, dict) for v in tree.values()):
             tree[draw(st.sampled_from(["rootfile", "b", "~"]))] = draw(FS_CONTENT)
-    algo = draw(st.sampled_from(["md5", "md5", "md5", "md5", "md5-dos2unix", "sha256"]))
     # a State is only combined with the md5 family (see ASSUMPTIONS)
     states = ["none"] if algo == "sha256" else ["none", "state", "state", "state"]
     return {
         "kind": "fs",
         "algo": algo,
         "tree": tree,
+        "extra": extra,
         "order1": draw(st.lists(st.integers(0, 40), max_size=8)),
         "order2": draw(st.lists(st.integers(0, 40), max_size=8)),
         "disk": draw(st.integers(0, 3)) == 0,
@@ -209,7 +247,7 @@ def fs_cases(draw, thorough=False):
         "touch": draw(st.lists(st.integers(0, 40), max_size=3)),
         "chmod": draw(st.lists(st.integers(0, 40), max_size=3)),
         "subdir": draw(st.integers(0, 5)),
-        "threshold": draw(st.sampled_from([0, 0, 1, 3, 5, 20, 600])),
+        "threshold": draw(st.sampled_from([0, 0, 1, 3, 5, 20, 600, 2**40])),
         "slow": draw(st.lists(st.integers(0, 40), max_size=3)),
         "gorder": draw(st.lists(st.integers(0, 40), max_size=8)),
         # order in which an `ignore` object's walk() yields the (root, dirs, files) triples
@@ -599,6 +637,17 @@ def bump_mtime(path, delta_ns):
     os.utime(path, ns=(st_.st_atime_ns, st_.st_mtime_ns + delta_ns))
 
 
+def file_ref(data, algo):
+    """Reference digest of one file, or None where the property does not pin it down: md5-dos2unix of a file
+    larger than the 1 MiB read is judged by C14's rule (1 MiB reads; None when the answer would depend on
+    per-read sniffing or a CRLF lies across a read boundary)."""
+    if algo != "md5-dos2unix" or len(data) <= MIB:
+        return ref.ref_hash(data, algo)
+    from . import c14
+
+    return c14.legacy_expected(data, c14.chunks_of(data, MIB))[0]
+
+
 def run_fs(case, ctx):
     from dvc_objects.fs.local import LocalFileSystem
 
@@ -626,10 +675,29 @@ def run_fs(case, ctx):
             else:
                 w2 = os.path.join(d, "w2")
             gen.materialise(case["tree"], w2, order=case["order2"] or None)
-            manifest = {rel: ref.ref_hash(b, algo) for rel, b in flat.items()}
-            want = ref_oid(manifest, algo)
-            want_bytes = ref_bytes(manifest, algo)
+            if case.get("extra"):
+                dirs = sorted({r.rpartition("/")[0] for r in flat})
+                sub = dirs[case["extra"]["dir"] % len(dirs)]
+                for nm, segs in case["extra"]["files"].items():
+                    rel = f"{sub}/{nm}" if sub else nm
+                    if any(r == rel or r.startswith(rel + "/") for r in flat):
+                        continue
+                    data = b"".join(gen.content_bytes(x) for x in segs)
+                    flat[rel] = data
+                    for w in (w1, w2):
+                        gen.write_file(os.path.join(w, *rel.split("/")), data)
+                classes.append("fs:legacy-shaped->1MiB-files")
+            # per-file reference; None where the legacy digest of a > 1 MiB file is not pinned down by the
+            # property (it then only has to be the same on every routing)
+            manifest = {rel: file_ref(b, algo) for rel, b in flat.items()}
+            pinned = all(v is not None for v in manifest.values())
+            want = ref_oid(manifest, algo) if pinned else None
+            want_bytes = ref_bytes(manifest, algo) if pinned else None
+            if not pinned:
+                classes.append("fs:reference-unpinned(metamorphic-only)")
             rels = sorted(flat)
+            tree_oids = {}   # label -> oid of every whole-tree build
+            seen = {}        # relpath -> {digest: first routing label}
 
             cfg = {"hash_name": algo}
             if case["state"] != "none":
@@ -646,6 +714,12 @@ def run_fs(case, ctx):
                 if not isinstance(obj, Tree):
                     viols.append(Viol(f"fs-not-a-tree:{label}", f"build({label}) returned {obj!r}"))
                     return None, calls
+                if path in (w1, w2):
+                    tree_oids[label] = obj.hash_info.value
+                    for k, _, hi in obj:
+                        seen.setdefault("/".join(k), {}).setdefault(hi.value, f"build:{label}")
+                if expect is None:
+                    return obj, calls
                 if obj.hash_info.value != expect:
                     viols.append(Viol(f"fs-oid:{label}", f"build({label}, jobs={jobs}) gave {obj.hash_info.value}, "
                                                          f"reference {expect}"))
@@ -680,10 +754,24 @@ def run_fs(case, ctx):
                         from dvc_data.hashfile.state import _checksum
 
                         for p, r in zip(ps, rels):
+                            if file_ref(flat[r], "md5-dos2unix") is None:
+                                continue  # no row for a file whose 2.x digest the harness cannot pin down
                             state.hashes[p] = json.dumps({
                                 "checksum": _checksum(pinfos[p]), "size": pinfos[p]["size"],
-                                "hash_info": {"md5": ref.ref_hash(flat[r], "md5-dos2unix")}})
+                                "hash_info": {"md5": file_ref(flat[r], "md5-dos2unix") or "0" * 32}})
                 spy.phase()
+
+            # routing pair without any state: every file hashed sequentially (threshold above all sizes) and,
+            # when >= 2 files exist, through the pool (threshold 0) - the digests must not depend on the route
+            rp = [os.path.join(w2, *r.split("/")) for r in rels]
+            rinfos = {p: _localfs_info(p) for p in rp}
+            for route, thr in (("sequential", 2**40), ("pooled", 0)):
+                got = _get_hashes(list(rp), fs, algo, rinfos, state=None, jobs=case["jobs"], large_file_threshold=thr)
+                _, pooled = spy.phase()
+                pool_max = max(pool_max, pooled)
+                for p, r in zip(rp, rels):
+                    if p in got:
+                        seen.setdefault(r, {}).setdefault(got[p][1].value, f"_get_hashes:{route}")
 
             # _get_hashes on the second copy: drawn threshold, jobs, order, delays
             gpaths = permute([os.path.join(w2, *r.split("/")) for r in rels], case["gorder"] or [0])
@@ -702,7 +790,8 @@ def run_fs(case, ctx):
                     if p in got:
                         rel = os.path.relpath(p, w2).replace(os.sep, "/")
                         hi = got[p][1]
-                        if hi.value != manifest[rel] or hi.name != algo:
+                        seen.setdefault(rel, {}).setdefault(hi.value, f"_get_hashes:{rnd}:thr={case['threshold']}")
+                        if (manifest[rel] is not None and hi.value != manifest[rel]) or hi.name != algo:
                             viols.append(Viol(f"get_hashes-wrong-hash:{rnd}",
                                               f"_get_hashes maps {rel!r} to {hi}, reference {manifest[rel]} "
                                               f"(threshold={case['threshold']}, jobs={case['jobs2']})"))
@@ -758,15 +847,27 @@ def run_fs(case, ctx):
                 classes.append("fs:subdir")
                 below = {"/".join(r.split("/")[len(p):]): v for r, v in manifest.items()
                          if tuple(r.split("/")[:len(p)]) == p}
-                s_obj, _ = stage(os.path.join(w1, *p), "subdir", case["jobs"], ref_oid(below, algo),
-                                 ref_bytes(below, algo))
+                sub_pinned = all(v is not None for v in below.values())
+                sub_oid = ref_oid(below, algo) if sub_pinned else None
+                sub_bytes = ref_bytes(below, algo) if sub_pinned else None
+                s_obj, _ = stage(os.path.join(w1, *p), "subdir", case["jobs"], sub_oid, sub_bytes)
                 g = t1.get_obj(odb, p)
-                if g is None or not isinstance(g, Tree) or g.as_bytes() != ref_bytes(below, algo):
+                if g is None or not isinstance(g, Tree) or (sub_pinned and g.as_bytes() != sub_bytes):
                     viols.append(Viol("fs-get_obj-subdir", f"get_obj({p}) does not list the sub-directory"))
-                elif hkey(algo) == "md5" and (g.oid != ref_oid(below, algo)
+                elif hkey(algo) == "md5" and ((sub_pinned and g.oid != sub_oid)
                                               or (s_obj is not None and g.oid != s_obj.oid)):
                     viols.append(Viol("fs-get_obj-subdir-oid", f"get_obj({p}).oid {g.oid} != direct build of the "
                                                                f"sub-directory"))
+
+            # metamorphic: one tree, one id - whatever the routing (pool / sequential / state hit / walk order)
+            if len(set(tree_oids.values())) > 1:
+                viols.append(Viol("fs-oid-routing-dependent", f"the same tree got different ids: {tree_oids}"))
+            for rel in rels:
+                if len(seen.get(rel, {})) > 1:
+                    viols.append(Viol("fs-digest-routing-dependent",
+                                      f"{algo} digest of {rel!r} ({len(flat[rel])} B) depends on the routing: "
+                                      f"{seen[rel]}"))
+                    break
         finally:
             if state is not None:
                 state.close()
